@@ -303,3 +303,16 @@ class StickyRegressor(BaseEstimator, RegressorMixin):
     def predict(self, X):
         X = np.asarray(X, dtype=np.float64)
         return self.intercept_ + self.coef_ * X.reshape(X.shape[0], -1)[:, 0]
+
+
+class BiasedClassifier(CentroidClassifier):
+    """a classifier whose predict is NOT the argmax of its predict_proba (a decision threshold moved on purpose, as
+    FixedThresholdClassifier or a cost-sensitive rule do): the last class in classes_ wins as soon as its probability reaches a quarter
+    of the best one"""
+
+    def predict(self, X):
+        P = self.predict_proba(X)
+        win = np.argmax(P, axis=1)
+        last = P.shape[1] - 1
+        win[P[:, last] >= 0.25 * P.max(axis=1)] = last
+        return self.classes_[win]
